@@ -214,10 +214,11 @@ def _gatesets(seed):
     a, b, c = QA
     g = core.generic(seed, 2)
     out = []
+    # (pms, reorder) legal combos: (T,F) and (F,T) are full members (whole alphabet); (F,F) runs in the option lattice (a4)
     for partial in (False, True):
-        for pms in (True, False):
-            out.append((f"CZ(partial={partial},pms={pms})",
-                        cirq.CZTargetGateset(allow_partial_czs=partial, preserve_moment_structure=pms),
+        for pms, ro in ((True, False), (False, True)):
+            out.append((f"CZ(partial={partial},pms={pms},reorder={ro})",
+                        cirq.CZTargetGateset(allow_partial_czs=partial, preserve_moment_structure=pms, reorder_operations=ro),
                         [cirq.CZ(b, a), cirq.PhasedXZGate(x_exponent=g, z_exponent=0.3, axis_phase_exponent=0.2)(a)], False))
     for cnt in (None, 2, 3):
         for inv in (False, True):
@@ -244,12 +245,6 @@ def _gatesets(seed):
         if add:
             nat.append(cirq.CCX(c, a, b))
         out.append((f"Pasqal(add={add})", cirq_pasqal.PasqalGateset(include_additional_controlled_ops=add), nat, False))
-    # reorder_operations=True (legal only with preserve_moment_structure=False): the only option that puts
-    # insertion_sort_transformer into the preprocess stage.  Full members: whole alphabet, a1 and a3.
-    for partial in (False, True):
-        out.append((f"CZ(partial={partial},pms=False,reorder=True)",
-                    cirq.CZTargetGateset(allow_partial_czs=partial, preserve_moment_structure=False, reorder_operations=True),
-                    [cirq.CZ(b, a), cirq.CZ(c, b)], False))
     # option lattice of the constructors (stage a4, reduced alphabet): CZTargetGateset(allow_partial_czs x (pms, reorder)
     # legal combos x additional_gates x atol), SqrtIswapTargetGateset(count x inv x additional_gates x atol),
     # GoogleCZTargetGateset(eject_paulis x additional_gates x atol; eject only together with the Pauli families)
